@@ -254,7 +254,7 @@ theorem struct_row_bl {pf : SS → R SS} {path : String} {sfs : Fields} {n : Boo
     {own' : Bool} {inner : List String} {p len v fs cached next seen}
     (hg : Good (.struct p len v fs cached next seen) (.struct sfs) n md)
     (ha : At path (.struct sfs) n md (.struct p len v fs cached next seen))
-    (hloop : ∀ {β : Type} (k : SS → R β) (s : SS), MidS path sfs s → SeenIs s [] → s.fields = fs →
+    (hloop : ∀ {β : Type} (k : SS → R β) (s : SS), MidS path sfs s → SeenIs s [] → s.fields = fs → s.next = 0 →
       (∀ s', MidS path sfs s' → SeenIs s' (knownKeys sfs.toList keys) →
         Blo (structS path sfs.toList keys own' inner) path (k s')) →
       Blo (structS path sfs.toList keys own' inner) path (pf s >>= k)) :
@@ -286,7 +286,7 @@ theorem struct_row_bl {pf : SS → R SS} {path : String} {sfs : Fields} {n : Boo
   refine Blo.ctx _ ?_
   rw [hb]
   show Blo _ path (pf _ >>= fun s => s.finishRow >>= fun s => pure s.toB)
-  refine hloop _ _ hm0 hs0 rfl fun s' hm' hs' => ?_
+  refine hloop _ _ hm0 hs0 rfl rfl fun s' hm' hs' => ?_
   refine Blo.bind ?_ fun _ _ => Blo.of_ok _
   unfold SS.finishRow
   refine Blo.bind ?_ fun _ _ => Blo.of_ok _
